@@ -108,6 +108,33 @@ func runC15(c *core.Ctx) error {
 				}
 				c.Dist("directed:layered-interpret-as")
 			}
+			if i%8 == 6 {
+				// directed: one list element named twice among the interests at one node - by a non-canonical numeral in a
+				// fields clause and by its index - in both orders, the element being a link where the graph has one; every start
+				// path of the unrestricted visit sequence is tried below
+				mm := func(k string, v core.Val) core.Val { return core.Map(core.KV{K: []byte(k), V: v}) }
+				match := mm(".", core.Map())
+				all := mm("a", mm(">", match))
+				var elems []core.Val
+				for k := 0; k < 3; k++ {
+					if len(g.Order) > 0 && c.Rand.Chance(2, 3) {
+						elems = append(elems, core.Link([]byte(g.Order[c.Rand.Intn(len(g.Order))])))
+					} else {
+						elems = append(elems, core.Map(core.KV{K: []byte("k"), V: core.Int(int64(k))}))
+					}
+				}
+				g.Root = core.List(elems...)
+				idx := c.Rand.Intn(3)
+				odd := []string{"0%d", "+%d", "00%d"}[c.Rand.Intn(3)]
+				fields := mm("f", mm("f>", core.Map(core.KV{K: []byte(fmt.Sprintf(odd, idx)), V: all})))
+				index := mm("i", core.Map(core.KV{K: []byte("i"), V: core.Int(int64(idx))}, core.KV{K: []byte(">"), V: match}))
+				if c.Rand.Bool() {
+					spec = mm("|", core.List(fields, index))
+				} else {
+					spec = mm("|", core.List(index, fields))
+				}
+				c.Dist("directed:one-element-under-two-spellings")
+			}
 			distSelector(c, spec)
 		}
 		// specs with ExploreInterpretAs clauses are walked with an identity reifier registered (without one the walk is an
